@@ -1273,7 +1273,13 @@ impl Stage {
                 return;
             }
         }
-        if static_rows > 0 && static_rows + region_rows.min(self.h) > self.h {
+        // (what counts is what the frame paints: a bar too tall for the terminal is left out)
+        let painted_rows_max: usize = region_alts
+            .iter()
+            .map(|alt| alt.iter().map(|(_, l, _)| l.iter().map(|x| rows_of(x, w)).sum::<usize>()).sum::<usize>())
+            .max()
+            .unwrap_or(0);
+        if static_rows > 0 && static_rows + painted_rows_max.min(self.h) > self.h {
             // static lines of finished bars may have scrolled out of the terminal's reach
             self.out_of_scope = Some(format!("{at}: static lines + region exceed the terminal height"));
             r.inconclusive = true;
